@@ -6,6 +6,9 @@ type AttrV struct {
 	S     *string `json:"s,omitempty"`
 	A     []AttrV `json:"a,omitempty"`
 	IsArr bool    `json:"arr,omitempty"`
+	// lines: render this string annotation in the multi-line form ('@k =:' + '| line' ...); S is then
+	// the documented value: every line followed by a newline
+	lines []string
 }
 
 type Meta struct {
